@@ -1,1 +1,93 @@
-// Network topologies for C35 (filled in by the engine; see net module of the host).
+// Network topologies for C35 (serialization round trip and member addressing through the
+// generated send / receive code). Compiled once with the embedded backend; the harness is the
+// network: it takes what the sender's generated sink closure emits and feeds the receiver's
+// generated source stream.
+use hydro_lang::live_collections::stream::{NoOrder, TotalOrder};
+use hydro_lang::location::MemberId;
+use hydro_lang::prelude::*;
+use serde::{Deserialize, Serialize};
+
+#[derive(Serialize, Deserialize, Clone, Debug, PartialEq, Eq, Hash)]
+pub enum Shape {
+    Unit,
+    N(i64),
+    S(String),
+    V(Vec<u32>),
+    Pair(Box<Shape>, Option<String>),
+    Rec { a: u8, b: Vec<Option<i16>> },
+}
+
+#[derive(Serialize, Deserialize, Clone, Debug, PartialEq, Eq, Hash)]
+pub struct Payload {
+    pub id: u64,
+    pub name: String,
+    pub tags: Vec<(i8, Option<String>)>,
+    pub shape: Shape,
+    pub unit: (),
+    pub flag: bool,
+}
+
+pub struct NSrc {}
+pub struct NDst {}
+pub struct CSrc {}
+pub struct CDst {}
+
+pub fn n_o2o_bincode<'a>(src: &Process<'a, NSrc>, dst: &Process<'a, NDst>) {
+    src.embedded_input::<Payload>("in0")
+        .send(dst, TCP.fail_stop().bincode().name("ch"))
+        .embedded_output("out0");
+}
+
+pub fn n_o2o_embedded<'a>(src: &Process<'a, NSrc>, dst: &Process<'a, NDst>) {
+    src.embedded_input::<Payload>("in0")
+        .send(dst, TCP.fail_stop().embedded().name("ch"))
+        .embedded_output("out0");
+}
+
+pub fn n_demux_bincode<'a>(src: &Process<'a, NSrc>, dst: &Cluster<'a, CDst>) {
+    src.embedded_input::<(u32, Payload)>("in0")
+        .map(q!(|(id, p)| (MemberId::<CDst>::from_raw_id(id), p)))
+        .demux(dst, TCP.fail_stop().bincode().name("ch"))
+        .embedded_output("out0");
+}
+
+pub fn n_demux_embedded<'a>(src: &Process<'a, NSrc>, dst: &Cluster<'a, CDst>) {
+    src.embedded_input::<(u32, Payload)>("in0")
+        .map(q!(|(id, p)| (MemberId::<CDst>::from_raw_id(id), p)))
+        .demux(dst, TCP.fail_stop().embedded().name("ch"))
+        .embedded_output("out0");
+}
+
+pub fn n_broadcast_bincode<'a>(src: &Process<'a, NSrc>, dst: &Cluster<'a, CDst>) {
+    src.embedded_input::<Payload>("in0")
+        .broadcast(dst, TCP.fail_stop().bincode().name("ch"), nondet!(/** membership is fed before the data */))
+        .embedded_output("out0");
+}
+
+pub fn n_m2o_bincode<'a>(src: &Cluster<'a, CSrc>, dst: &Process<'a, NDst>) {
+    src.embedded_input::<Payload>("in0")
+        .send(dst, TCP.fail_stop().bincode().name("ch"))
+        .entries()
+        .map(q!(|(m, p)| (m.get_raw_id(), p)))
+        .assume_ordering::<TotalOrder>(nondet!(/** observation: multiset */))
+        .embedded_output("out0");
+}
+
+pub fn n_m2o_embedded<'a>(src: &Cluster<'a, CSrc>, dst: &Process<'a, NDst>) {
+    src.embedded_input::<Payload>("in0")
+        .send(dst, TCP.fail_stop().embedded().name("ch"))
+        .entries()
+        .map(q!(|(m, p)| (m.get_raw_id(), p)))
+        .assume_ordering::<TotalOrder>(nondet!(/** observation: multiset */))
+        .embedded_output("out0");
+}
+
+pub fn n_m2m_bincode<'a>(src: &Cluster<'a, CSrc>, dst: &Cluster<'a, CDst>) {
+    src.embedded_input::<(u32, Payload)>("in0")
+        .map(q!(|(id, p)| (MemberId::<CDst>::from_raw_id(id), p)))
+        .demux(dst, TCP.fail_stop().bincode().name("ch"))
+        .entries()
+        .map(q!(|(m, p)| (m.get_raw_id(), p)))
+        .assume_ordering::<TotalOrder>(nondet!(/** observation: multiset */))
+        .embedded_output("out0");
+}
